@@ -385,6 +385,12 @@ func newEnv(c Case) *env {
 	case "methodv":
 		delete(e.data, fname)
 		e.data[fname+"Val"] = methRec{e: e}
+	case "chain":
+		delete(e.data, fname)
+		e.data[fname+"Rec"] = &methRec{e: e}
+	case "elem":
+		delete(e.data, fname)
+		e.data[fname+"Recs"] = []*methRec{nil, {e: e}}
 	}
 	return e
 }
@@ -546,6 +552,8 @@ func (r *methRec) call(ps ...interface{}) []reflect.Value {
 	return r.e.body(0)(in)
 }
 
+func (r *methRec) Self() *methRec { return r }
+
 func outStr(out []reflect.Value) string { return out[0].Interface().(string) }
 func outErr(out []reflect.Value) error {
 	err, _ := out[len(out)-1].Interface().(error)
@@ -645,10 +653,12 @@ type Case struct {
 	Use string `json:"use,omitempty"`
 }
 
-var routes = []string{"", "ptr", "index", "key", "method", "methodv"}
+// chain and elem: the method is the last call of a chain / hangs off an indexed element (tgtFnRec.Self().ZqX(..), tgtFnRecs[1].ZqX(..))
+var routes = []string{"", "ptr", "index", "key", "method", "methodv", "chain", "elem"}
 
 // the last three stand where an unknown identifier would be forgiven: a function's error is not
-var uses = []string{"", "silent", "let", "cap", "if", "not", "or"}
+// for: the call is the iterable of a loop - the braces after it are the loop's body, not the call's block
+var uses = []string{"", "silent", "let", "cap", "if", "not", "or", "for"}
 
 const blockSrc = `B<%= cvBlk %>E`
 const blockText = "B7E"
@@ -667,7 +677,7 @@ func (c Case) validate() string {
 	}
 	switch c.Route {
 	case "", "ptr", "index", "key":
-	case "method", "methodv":
+	case "method", "methodv", "chain", "elem":
 		if methodOf(c.Sig) == "" {
 			return "no method of this signature"
 		}
@@ -679,6 +689,10 @@ func (c Case) validate() string {
 	case "if", "not", "or":
 		if c.Block {
 			return "a call with a block is not written inside a condition"
+		}
+	case "for":
+		if c.Block {
+			return "the braces after the iterable are the loop's"
 		}
 	case "let":
 		if !strings.Contains(c.Sig.Res, "T") || c.Sig.RT == "nilany" {
@@ -701,12 +715,16 @@ func (c Case) callee() string {
 		return fname + "Rec." + methodOf(c.Sig)
 	case "methodv":
 		return fname + "Val." + methodOf(c.Sig)
+	case "chain":
+		return fname + "Rec.Self().Self()." + methodOf(c.Sig)
+	case "elem":
+		return fname + "Recs[1]." + methodOf(c.Sig)
 	}
 	return fname
 }
 
 func (c Case) callName() string {
-	if c.Route == "method" || c.Route == "methodv" {
+	if c.Route == "method" || c.Route == "methodv" || c.Route == "chain" || c.Route == "elem" {
 		return methodOf(c.Sig)
 	}
 	return fname
@@ -747,6 +765,8 @@ func (c Case) Template() string {
 		return "[<%= !" + call + " %>]"
 	case "or":
 		return "[<%= " + call + " || false %>]"
+	case "for":
+		return "[<%= for (zi) in " + call + " { %>zb<% } %>]"
 	}
 	return "[<%= " + call + " %>]"
 }
@@ -1127,6 +1147,10 @@ func checkCase(r *vk.Run, c Case) *vk.Fail {
 		}
 	}
 	// results
+	if c.Use == "for" && !strings.Contains(c.Sig.Res, "err") {
+		// what ranging over the call's value gives is C08's matter; here: the call was bound like any other, without a block
+		return nil
+	}
 	if strings.Contains(c.Sig.Res, "err") {
 		if res.Err == nil {
 			return fail("the function returned a non-nil error, the render must fail")
@@ -2559,7 +2583,7 @@ func genCase(t *rapid.T, fit map[string][]string) Case {
 		if c.Use == "let" && (!strings.Contains(s.Res, "T") || s.RT == "nilany") {
 			c.Use = "cap"
 		}
-		if (c.Use == "if" || c.Use == "not" || c.Use == "or") && c.Block {
+		if (c.Use == "if" || c.Use == "not" || c.Use == "or" || c.Use == "for") && c.Block {
 			c.Use = ""
 		}
 	}
@@ -2602,7 +2626,7 @@ func routeMatrix() []Case {
 				}
 				for li, args := range lists {
 					for _, blk := range []bool{false, true} {
-						if blk && (use == "if" || use == "not" || use == "or") {
+						if blk && (use == "if" || use == "not" || use == "or" || use == "for") {
 							continue
 						}
 						w := allWrapped(len(args))
@@ -2620,7 +2644,7 @@ func routeMatrix() []Case {
 
 // ---- the test ---------------------------------------------------------------------------
 
-const rule = "Signatures: 0-3 fixed parameters from {string,int,float64,bool,interface{},*T,[]int} (core; the slot matrix, the arity matrix and the random phases add fmt.Stringer, error, int64, a named string type, []interface{}, a struct by value, func(int) int), then optionally a trailing options map (map[string]interface{} | hctx.Map) and/or a helper context (plush.HelperContext struct | hctx.HelperContext interface), or a variadic tail (...int|...string|...interface{}|...fmt.Stringer); results (), (T), (T,error) and (error) with nil and non-nil error, T in {string,int,interface{}} returning a fixed non-zero value, plus T returning the zero value (0, the empty string, a nil interface{}) and interface{} returning an ERROR VALUE (generated but not asserted: whether that is the call's value or a failing call is not settled by the statement - excluded class any-result-holding-error). The function is built with reflect.MakeFunc (twelve signatures also exist as hand-written methods) and records every invocation (received values, HasBlock(), Block() called twice). Calls: 0-6 arguments from {string, int, float, true, false, nil, hash literal, array literal, context variables: string, int, float64, bool, *T, typed nil *T, []int, int8, named string, hctx.Map} (core) plus {typed nil map, typed nil slice, error value, fmt.Stringer, struct value, []interface{}, func value, int64, template.HTML, uint, and the expressions a + b, string + string, a == b, !false, slice[i], pointer.Field, map[key], (n)}, literal values depend on the position; each argument optionally wrapped in an order-recording identity helper; with and without a block. ROUTES to the function: by name, through a pointer to the func, as element of a slice (tgtFnArr[1](...), decoys around it), as value of a map, as method through a pointer and through a struct value held in the context. USES of the call's value: emitted, silent tag (must emit nothing), let then emitted by a later tag, argument of a recording helper (the TYPED first result must arrive), and three places where an unknown identifier would be forgiven - condition of an if, operand of !, operand of || - where a function's error fails the render all the same (the errors returned wrap an unknown-identifier error, as a helper that rendered a snippet returns). (E1) every parameter slot type (fixed at positions 0-2, options map, helper context, variadic element 0-2) x every argument kind x block x wrapped/unwrapped; (E2) arity matrix: 0-3 fixed x 12 tails x 21 result shapes x 0..N+1 well-typed arguments x block x wrapped/unwrapped, parameter types rotated; (E4) 12 method signatures x 6 routes x 4 uses x (0..N+1 well-typed arguments + last slot with every core kind) x block; (E5) 21 result shapes x 4 uses x 3 tails x block; (E3) full product of all signatures with <= K core fixed parameters x 12 tails with all calls of <= n arguments of the 18 core kinds x block; (R) random signature x call x route x use, arguments biased to fit. Oracle = reference binder from the statement: invoked exactly once with exactly the supplied values in order (nil => zero value, omitted trailing map => a map that is empty at the moment of the call, and the recorder writes an entry into every empty map it receives, as option-defaulting helpers do, omitted helper context => HasBlock()==block given and Block() renders the block, both times it is called, variadic gets the rest), or not invoked and an error containing the function (method) name (too many arguments / not assignable); first result is the value; non-nil error => errors.Is. Arguments evaluated at most once, left to right, on every path; exactly once on success. Unspecified (not asserted beyond evaluation order): fewer arguments than fixed parameters. Non-trivial = specified and (at least one argument or an auto-supplied parameter). Distinct by signature + template. SEQUENCES: one call site tgtFn(ARGS) is executed 2-3 times within one render, the callee resolving to a recording function of a different signature each time (loop: for (tgtFn) in fns; let: for (i) in idx { let tgtFn = fns[i] }; ufn: the site sits in a template-defined function called again after tgtFn is reassigned). The reference binder is applied to every execution independently against the chronological log of wrapper evaluations and invocations: everything up to the first execution that must fail (or returns a non-nil error) must have happened exactly, nothing after it; a sequence stops being judged at the first unspecified execution. (S1) all ordered pairs of signatures (<= 1 fixed parameter x 12 tails) x all calls of <= 2 arguments of a reduced kind set; (S2) ordered pairs over 0-K fixed x 12 tails x 4 result shapes with arguments well typed for either member; (SR) random 2-3 signatures. Sequence cases are non-trivial when the function types differ. TREES: one template with SEVERAL calls of 2-4 recording functions: one after the other (each with its own block, then again without), a call as an argument of a call (the outer receives the inner's typed first result; a block belongs to the call it follows), calls inside the block of a call (three levels), the body optionally inside for (x) in xs with blocks and arguments showing x, that loop optionally entered several times from an outer loop, and four loops of 550-1100 iterations. A reference walk lists the invocations that must happen, in order (arguments, then the block twice, then the call itself), each judged by the reference binder; the walk stops at the first call that must fail (binder error: the error names it; error result: errors.Is) and nothing may happen after it; output = texts + first results. Not judged: a call that fails in the binder while it has calls among its arguments (which arguments are evaluated then is not stated), a failure inside a block (the recorder swallows Block()'s error). (T1) ordered pairs of 10 signatures x 12 shapes; (TR) random trees. Tree cases are always non-trivial."
+const rule = "Signatures: 0-3 fixed parameters from {string,int,float64,bool,interface{},*T,[]int} (core; the slot matrix, the arity matrix and the random phases add fmt.Stringer, error, int64, a named string type, []interface{}, a struct by value, func(int) int), then optionally a trailing options map (map[string]interface{} | hctx.Map) and/or a helper context (plush.HelperContext struct | hctx.HelperContext interface), or a variadic tail (...int|...string|...interface{}|...fmt.Stringer); results (), (T), (T,error) and (error) with nil and non-nil error, T in {string,int,interface{}} returning a fixed non-zero value, plus T returning the zero value (0, the empty string, a nil interface{}) and interface{} returning an ERROR VALUE (generated but not asserted: whether that is the call's value or a failing call is not settled by the statement - excluded class any-result-holding-error). The function is built with reflect.MakeFunc (twelve signatures also exist as hand-written methods) and records every invocation (received values, HasBlock(), Block() called twice). Calls: 0-6 arguments from {string, int, float, true, false, nil, hash literal, array literal, context variables: string, int, float64, bool, *T, typed nil *T, []int, int8, named string, hctx.Map} (core) plus {typed nil map, typed nil slice, error value, fmt.Stringer, struct value, []interface{}, func value, int64, template.HTML, uint, and the expressions a + b, string + string, a == b, !false, slice[i], pointer.Field, map[key], (n)}, literal values depend on the position; each argument optionally wrapped in an order-recording identity helper; with and without a block. ROUTES to the function: by name, through a pointer to the func, as element of a slice (tgtFnArr[1](...), decoys around it), as value of a map, as method through a pointer and through a struct value held in the context, as the last call of a chain (tgtFnRec.Self().Self().M(..)) and as a method of an indexed element (tgtFnRecs[1].M(..)). USES of the call's value: emitted, silent tag (must emit nothing), let then emitted by a later tag, argument of a recording helper (the TYPED first result must arrive), and three places where an unknown identifier would be forgiven - condition of an if, operand of !, operand of || - where a function's error fails the render all the same, and as the ITERABLE of a for loop (the braces that follow are the loop's body: the call is bound without a block) (the errors returned wrap an unknown-identifier error, as a helper that rendered a snippet returns). (E1) every parameter slot type (fixed at positions 0-2, options map, helper context, variadic element 0-2) x every argument kind x block x wrapped/unwrapped; (E2) arity matrix: 0-3 fixed x 12 tails x 21 result shapes x 0..N+1 well-typed arguments x block x wrapped/unwrapped, parameter types rotated; (E4) 12 method signatures x 6 routes x 4 uses x (0..N+1 well-typed arguments + last slot with every core kind) x block; (E5) 21 result shapes x 4 uses x 3 tails x block; (E3) full product of all signatures with <= K core fixed parameters x 12 tails with all calls of <= n arguments of the 18 core kinds x block; (R) random signature x call x route x use, arguments biased to fit. Oracle = reference binder from the statement: invoked exactly once with exactly the supplied values in order (nil => zero value, omitted trailing map => a map that is empty at the moment of the call, and the recorder writes an entry into every empty map it receives, as option-defaulting helpers do, omitted helper context => HasBlock()==block given and Block() renders the block, both times it is called, variadic gets the rest), or not invoked and an error containing the function (method) name (too many arguments / not assignable); first result is the value; non-nil error => errors.Is. Arguments evaluated at most once, left to right, on every path; exactly once on success. Unspecified (not asserted beyond evaluation order): fewer arguments than fixed parameters. Non-trivial = specified and (at least one argument or an auto-supplied parameter). Distinct by signature + template. SEQUENCES: one call site tgtFn(ARGS) is executed 2-3 times within one render, the callee resolving to a recording function of a different signature each time (loop: for (tgtFn) in fns; let: for (i) in idx { let tgtFn = fns[i] }; ufn: the site sits in a template-defined function called again after tgtFn is reassigned). The reference binder is applied to every execution independently against the chronological log of wrapper evaluations and invocations: everything up to the first execution that must fail (or returns a non-nil error) must have happened exactly, nothing after it; a sequence stops being judged at the first unspecified execution. (S1) all ordered pairs of signatures (<= 1 fixed parameter x 12 tails) x all calls of <= 2 arguments of a reduced kind set; (S2) ordered pairs over 0-K fixed x 12 tails x 4 result shapes with arguments well typed for either member; (SR) random 2-3 signatures. Sequence cases are non-trivial when the function types differ. TREES: one template with SEVERAL calls of 2-4 recording functions: one after the other (each with its own block, then again without), a call as an argument of a call (the outer receives the inner's typed first result; a block belongs to the call it follows), calls inside the block of a call (three levels), the body optionally inside for (x) in xs with blocks and arguments showing x, that loop optionally entered several times from an outer loop, and four loops of 550-1100 iterations. A reference walk lists the invocations that must happen, in order (arguments, then the block twice, then the call itself), each judged by the reference binder; the walk stops at the first call that must fail (binder error: the error names it; error result: errors.Is) and nothing may happen after it; output = texts + first results. Not judged: a call that fails in the binder while it has calls among its arguments (which arguments are evaluated then is not stated), a failure inside a block (the recorder swallows Block()'s error). (T1) ordered pairs of 10 signatures x 12 shapes; (TR) random trees. Tree cases are always non-trivial."
 
 func setup(t *testing.T) *vk.Run {
 	r := vk.Start(t, "C12", rule,
